@@ -1,2 +1,8 @@
 #!/bin/sh
-exit 0
+# Builds the vx symbolic executor offline from the module cache.
+set -e
+export PATH=/opt/veriftools/go1.26.8/bin:$PATH GOFLAGS=-mod=mod GOPROXY=off GOSUMDB=off GOTOOLCHAIN=local
+cd /verif/vx
+mkdir -p /verif/bin
+go build -o /verif/bin/vx .
+echo "vx built"
